@@ -21,20 +21,21 @@ PROPS = {
     },
     "C14": {
         "level": "proof",
-        "verus": ["schema_rules", "types", "impl_args", "subtype"],
+        "verus": ["schema_rules", "types", "impl_args", "subtype", "input_cycles"],
         "explanation": "KERNEL ONLY: three of the type-system validation rules, decided against the specification text rather than against a reference implementation. Verus proves for every input that "
                        "validate_type_system_name reports exactly the names that start with `__` outside the built-in file (rule 'Reserved Names'), and that validate_implementation_field_types reports exactly the "
                        "interface fields whose implementing field type is not a valid implementation type (rule IsValidImplementationFieldType over the schema's subtype relation, any nesting of list / non-null), "
                        "once each and in order. Unit impl_args: validate_implementation_field_arguments appends exactly the reports IsValidImplementation 2.c / 2.d owe, in order -- an interface field argument missing on the implementing field, "
                        "present with a type that is not THE SAME type (invariant: `ID!` vs `ID` is reported), an additional argument that is required (non-null without default) -- for every schema, implementor and list of interfaces. "
-                       "Bodies are re-extracted from /repo on every run.",
+                       "Bodies are re-extracted from /repo on every run. Unit input_cycles: the search for circular input-object references (FindRecursiveInputValue) answers Ok only if the checked type lies on NO chain of non-null singular input-object fields leading back to it "
+                       "(within the recursion limit of 32), and reports a cycle only if there IS such a chain -- for every schema; a default value on a field does not break the chain.",
         "assumptions": ["IndexMap / IndexSet / HashMap / HashSet shims; Schema::is_subtype's relation is proved in unit subtype; `.iter().find / any` are first-match searches over the code's own predicate closures (kept verbatim); derived PartialEq of ast::Type is structural equality"],
         "not_decided": ["the property as stated: agreement of the WHOLE of schema validation with the reference implementation (graphql-js via graphql-core) -- every other rule (root operation types, field / argument / "
-                        "directive definitions, unions, enums, input objects, transitive interfaces, input-object cycles) and the documented differences; no oracle exists inside a contract"],
+                        "directive definitions, unions, enums, input objects, transitive interfaces) and the documented differences; no oracle exists inside a contract"],
     },
     "C15": {
         "level": "proof",
-        "verus": ["schema_rules", "types", "impl_args", "subtype", "diagnostics"],
+        "verus": ["schema_rules", "types", "impl_args", "subtype", "diagnostics", "input_cycles"],
         "explanation": "KERNEL ONLY: nine of the mechanisms behind 'acceptance implies these invariants'. Verus proves for every input: validate_type_system_name reports a name exactly when it starts with `__` and "
                        "is not located in the built-in file (Reserved Names); BuiltInScalars::record_type_ref says whether a name is a built-in scalar and records it as used-and-defined / used-and-undefined "
                        "according to the schema's type map, all_used compares the counts (the bookkeeping that decides which built-in scalars stay in a valid schema's type map); validate_implementation_field_types "
@@ -42,11 +43,12 @@ PROPS = {
                        "validate_schema itself: its effect on the type map is `types_after` -- every definition stays except built-in scalar definitions nothing refers to; a built-in scalar that is referred to but not defined is inserted "
                        "as the table's definition -- including that the `all_used` shortcut is harmless (set cardinalities) and that every used-and-undefined name is inserted. Unit subtype: Schema::is_input_type / is_output_type == IsInputType / IsOutputType "
                        "(wrappers looked through; Scalar, Enum, InputObject resp. everything but InputObject; an undefined name is neither) -- the question the field / argument / variable validators ask to decide 'referenced types have the right kind' -- and Schema::is_subtype == the possible-type relation. Unit diagnostics: DiagnosticList::into_valid_result / into_result_with / into_result -- `Valid(..)` is constructed exactly when no validator pushed a diagnostic, "
-                       "otherwise every diagnostic is handed back with the partial value.",
+                       "otherwise every diagnostic is handed back with the partial value. Unit input_cycles: the search for circular input-object references (FindRecursiveInputValue) answers Ok only if the checked type lies on NO chain of non-null singular input-object fields leading back to it "
+                       "(within the recursion limit of 32), and reports a cycle only if there IS such a chain -- for every schema; a default value on a field does not break the chain.",
         "assumptions": ["HashMap / HashSet / IndexMap / IndexSet behave as maps / sets / sequences keyed by the name's text (shims); retain keeps exactly the entries its closure accepts", "Schema::is_subtype's relation is no longer assumed (unit subtype)",
                         "the per-definition validators called by validate_schema are opaque; assumed of each: it calls record_type_ref for exactly the type references of the definition it is given, and leaves the table alone"],
         "not_decided": ["the property's main clause: that ACCEPTANCE by the whole of validate_schema implies every listed invariant (root types, referenced types exist with the right kind, argument contracts, "
-                        "transitive interfaces, input-object cycles): would need contracts on every validator"],
+                        "transitive interfaces): would need contracts on every validator"],
     },
     "C16": {
         "level": "proof",
